@@ -56,8 +56,8 @@ pub fn dispatch(st: &mut ClaimState, op: &str, f: &[String]) -> Option<String> {
             set_now_ms(Some(st.now));
             "ok".into()
         }
-        // q.start <claimant> <handle> <reg> <name>
-        "q.start" => {
+        // q.enter <claimant> <handle> <reg> <name> : enters try_start_fetch (clock read), parks before the UPDATE
+        "q.enter" => {
             let cache = st.handle(&f[1]);
             let (reg, name) = (rt(&f[2]), f[3].clone());
             let (to_main, from) = channel::<Msg>();
@@ -65,7 +65,7 @@ pub fn dispatch(st: &mut ClaimState, op: &str, f: &[String]) -> Option<String> {
             let tm = to_main.clone();
             std::thread::spawn(move || {
                 set_point_hook(Some(Box::new(move |name: &str| {
-                    if name == "claim.before_insert" {
+                    if name == "claim.before_insert" || name == "claim.before_update" {
                         let _ = tm.send(Msg::Parked);
                         match wait.recv() {
                             Ok(true) => Action::Continue,
@@ -90,13 +90,17 @@ pub fn dispatch(st: &mut ClaimState, op: &str, f: &[String]) -> Option<String> {
                 }
             }
         }
-        "q.insert" | "q.busy" => match st.pending.remove(&f[0]) {
+        // q.update / q.insert: let the parked claimant run its next statement; q.busy: make it fail
+        "q.update" | "q.insert" | "q.busy" => match st.pending.remove(&f[0]) {
             None => "nop".into(),
             Some(p) => {
-                let _ = p.go.send(op == "q.insert");
+                let _ = p.go.send(op != "q.busy");
                 match p.from.recv().expect("claimant") {
                     Msg::Done(r) => r,
-                    Msg::Parked => "PARKED-TWICE".into(),
+                    Msg::Parked => {
+                        st.pending.insert(f[0].clone(), p);
+                        "P".into()
+                    }
                 }
             }
         },
